@@ -169,15 +169,47 @@ def check_builder(ctx):
     if strips:
         ctx.note("PyTree.__getitem__ calls .strip() on the structure before the isinstance test (a non-string structure raises AttributeError); "
                  "outside C09's quantifier (structure *strings*), recorded as an observation")
+    # tokenisation agreement builder <-> checker
+    chk = _check_fn(ctx)
+
+    def token_exprs(fn, base_suffix):
+        out = []
+        for st in ast.walk(fn.node):
+            if isinstance(st, ast.Assign) and isinstance(st.targets[0], ast.Name) and st.targets[0].id == "pieces" and isinstance(st.value, ast.Call):
+                out.append(st.value)
+        return out
+
+    b_tok = token_exprs(f, "X.structure")
+    c_tok = []
+    for g_ in _pt_functions(ctx):
+        c_tok += token_exprs(g_, "cls.structure")
+    need(b_tok and c_tok, "C09.2: tokenisation of the structure string not found on both sides")
+    import re as _re2
+
+    bt = _re2.sub(r"[A-Za-z_][A-Za-z_0-9]*\.structure", "S", norm(b_tok[0]))
+    import re as _re
+
+    ct = _re.sub(r"[A-Za-z_][A-Za-z_0-9]*\.structure", "S", norm(c_tok[0]))
+    if bt != ct or bt != "S.split()":
+        ctx.bad("C09.2", f, b_tok[0], f"the builder validates the tokens `{norm(b_tok[0])}` but the checker interprets `{norm(c_tok[0])}`: a structure string can pass validation and still "
+                "contain a token the checker cannot interpret (e.g. `T...`), so it is not rejected with ValueError when the annotation is built",
+                construct=f"tokenisation builder `{bt}` vs checker `{ct}`")
+    else:
+        ctx.ok("C09.2", f.qualname, "builder validates exactly the whitespace tokens (`split()`) that the checker interprets")
     # the per-token validation as a branch table over {identifier, `...`, other} x {first, middle, last}
-    loops = [x for x in ast.walk(f.node) if isinstance(x, ast.For) and isinstance(x.iter, ast.Call) and norm(x.iter.func) == "enumerate"
-             and isinstance(x.target, ast.Tuple) and len(x.target.elts) == 2]
+    loops = [x for x in ast.walk(f.node) if isinstance(x, ast.For)]
     loops = [lp for lp in loops if any(isinstance(c, ast.Call) and isinstance(c.func, ast.Attribute) and c.func.attr == "isidentifier" for c in ast.walk(lp))]
     if len(loops) != 1:
         raise AnalysisError("C09.2: the per-token validation loop of the structure string was not recognised")
     lp = loops[0]
-    ivar, pvar = lp.target.elts[0].id, lp.target.elts[1].id
-    seq = norm(lp.iter.args[0])
+    if isinstance(lp.iter, ast.Call) and norm(lp.iter.func) == "enumerate" and isinstance(lp.target, ast.Tuple) and len(lp.target.elts) == 2:
+        ivar, pvar = lp.target.elts[0].id, lp.target.elts[1].id
+        seq = norm(lp.iter.args[0])
+    elif isinstance(lp.target, ast.Name):
+        ivar, pvar = "<no index>", lp.target.id
+        seq = norm(lp.iter)
+    else:
+        raise AnalysisError("C09.2: the per-token validation loop has an unrecognised target")
     aliases = {}
     for a in ast.walk(f.node):
         if isinstance(a, ast.Assign) and len(a.targets) == 1 and isinstance(a.targets[0], ast.Name) and not any(y is a for y in ast.walk(lp)):
@@ -254,33 +286,6 @@ def check_builder(ctx):
                     f"(expected: identifiers pass, `...` passes only first/last, everything else ValueError)", construct=f"token validation: {kind}@{pos} -> {got}")
     else:
         ctx.ok("C09.2", f.qualname, "token validation over {identifier, ..., other} x {only, first, middle, last}: identifiers pass, `...` only at the ends, everything else ValueError")
-    # tokenisation agreement builder <-> checker
-    chk = _check_fn(ctx)
-
-    def token_exprs(fn, base_suffix):
-        out = []
-        for st in ast.walk(fn.node):
-            if isinstance(st, ast.Assign) and isinstance(st.targets[0], ast.Name) and st.targets[0].id == "pieces" and isinstance(st.value, ast.Call):
-                out.append(st.value)
-        return out
-
-    b_tok = token_exprs(f, "X.structure")
-    c_tok = []
-    for g_ in _pt_functions(ctx):
-        c_tok += token_exprs(g_, "cls.structure")
-    need(b_tok and c_tok, "C09.2: tokenisation of the structure string not found on both sides")
-    import re as _re2
-
-    bt = _re2.sub(r"[A-Za-z_][A-Za-z_0-9]*\.structure", "S", norm(b_tok[0]))
-    import re as _re
-
-    ct = _re.sub(r"[A-Za-z_][A-Za-z_0-9]*\.structure", "S", norm(c_tok[0]))
-    if bt != ct or bt != "S.split()":
-        ctx.bad("C09.2", f, b_tok[0], f"the builder validates the tokens `{norm(b_tok[0])}` but the checker interprets `{norm(c_tok[0])}`: a structure string can pass validation and still "
-                "contain a token the checker cannot interpret (e.g. `T...`), so it is not rejected with ValueError when the annotation is built",
-                construct=f"tokenisation builder `{bt}` vs checker `{ct}`")
-    else:
-        ctx.ok("C09.2", f.qualname, "builder validates exactly the whitespace tokens (`split()`) that the checker interprets")
 
 
 # ------------------------------------------------------------------------ C09.3
